@@ -67,6 +67,27 @@ def deliverAt (s : Sys) (canId : Nat) (data : Bytes) (dt : Nat) : Sys × String 
   let (c, log) := notify s.cons canId data (s.clock - dt)
   ({ s with cons := c }, showLog log)
 
+def parseOptInt (s : String) : Option (Option Int) :=
+  if s = "n" then some none else (parseInt s).map some
+
+/-- a periodic-transmission call on one map: the map afterwards, and `ok` / `err` (the call raised) -/
+def ctlOut (c : Ctl) (m : PMap) : PMap × String :=
+  match c with
+  | .start p => let r := start m p; (r.1, if r.2 then "ok" else "err")
+  | c => (ctl m c, "ok")
+
+/-- apply `f` to map `k` of the producing (`P`) or the consuming (`C`) side -/
+def onMap (s : Sys) (side : String) (k : Nat) (f : PMap → PMap × String) : Sys × String :=
+  if side = "P" then
+    match s.prod[k]? with
+    | some pm => let (pm', o) := f pm; ({ s with prod := s.prod.set k pm' }, o)
+    | none => (s, "bad")
+  else if side = "C" then
+    match s.cons.maps[k]? with
+    | some cm => let (cm', o) := f cm; ({ s with cons := { s.cons with maps := s.cons.maps.set k cm' } }, o)
+    | none => (s, "bad")
+  else (s, "bad")
+
 def stepOne (s : Sys) (tok : String) : Sys × String :=
   match tok.splitOn "." with
   | ["y", id, h, dt] =>
@@ -140,12 +161,22 @@ def stepOne (s : Sys) (tok : String) : Sys × String :=
         | none => (s, "bad"))
      | _, _ => (s, "bad"))
   | ["T", m, on] =>
+    -- the older spelling of `S.C.m.7` / `E.C.m`
     (match m.toNat?, parseBool on with
-     | some m, some on =>
-       (match s.cons.maps[m]? with
-        | some cm => ({ s with cons := { s.cons with maps := s.cons.maps.set m (if on then { cm with transmitting := true, period := some 7 } else { cm with transmitting := false }) } }, "ok")
-        | none => (s, "bad"))
+     | some m, some on => onMap s "C" m (if on then ctlOut (.start (some 7)) else ctlOut .stop)
      | _, _ => (s, "bad"))
+  | ["S", side, m, per] =>
+    (match m.toNat?, parseOptInt per with
+     | some m, some per => onMap s side m (ctlOut (.start per))
+     | _, _ => (s, "bad"))
+  | ["E", side, m] =>
+    (match m.toNat? with
+     | some m => onMap s side m (ctlOut .stop)
+     | none => (s, "bad"))
+  | ["U", side, m] =>
+    (match m.toNat? with
+     | some m => onMap s side m (ctlOut .update)
+     | none => (s, "bad"))
   | ["W", m, arr] =>
     (match m.toNat?, parseArrivals arr with
      | some m, some arr =>
